@@ -43,7 +43,7 @@ def cases(tier, seed):
 
 
 def _cases(tier, seed):
-    frames_forms = [(fr, form) for fr in pick_frames(FRAMES, tier, seed) for form in ("1d", "2d", "2d+extra")]
+    frames_forms = [(fr, form) for fr in pick_frames(FRAMES, tier, seed) for form in ("1d", "2d", "2d+extra", "table_ne")]
     # other representations of the same cloud: Fortran-ordered 2-D arrays, integer dtype (lattice scaled by 4 so that it is
     # integer valued) for both coordinates or for the easting only
     frames_forms += [([1.0, 0.0], "2dF"), ([4.0, 0.0], "int"), ([4.0, 0.0], "int_e"), ([1.0, 0.0], "dups")]
@@ -73,7 +73,7 @@ def _cases(tier, seed):
                         yield dict(kind="roll", frame=fr, cloud=list(sub), form="1d", region=None, size=size, step=st, adjust="spacing")
         centers = [(2.0, 1.5), (0.0, 0.0), (1.25, 2.75), (2.1, 1.3), (-1.0, 5.0)]
         szs = [0.1, 0.5, 1.0, 2.0, 4.0]
-        for form in ("1d", "2d", "2d+extra") + (("2dF", "dups") if fr == [1.0, 0.0] else ()):
+        for form in ("1d", "2d", "2d+extra") + (("2dF", "dups", "table_ne", "table_rev") if fr == [1.0, 0.0] else ()):
             for c in centers:
                 for k in (1, 2, 3):
                     for sl in itertools.permutations(szs, k):
@@ -112,6 +112,14 @@ def _cloud(case):
         e, n = e.reshape(13, 17), n.reshape(13, 17)
     if form == "2dF":
         e, n = np.asfortranarray(e), np.asfortranarray(n)
+    if form in ("table_ne", "table_rev"):
+        # 1-D coordinates that are views of ONE (N, 2) table, columns in (northing, easting) order / reversed views of a reversed table (round 8)
+        if form == "table_ne":
+            tab = np.column_stack([n, e])
+            e, n = tab[:, 1], tab[:, 0]
+        else:
+            tab = np.column_stack([e, n])[::-1].copy()
+            e, n = tab[::-1, 0], tab[::-1, 1]
     if form == "int":
         e, n = e.astype(np.int64), n.astype(np.int64)
     if form == "int_e":
